@@ -964,6 +964,29 @@ def check_C01(ctx):
     ctx.guard("C01.entry-no-panic", entry_totality, ctx, "C01.entry-no-panic", ((FIVE, 5),), fac)
 
 
+def rank_wiring(ctx, rule, sizes, pairs):
+    """`hand_rank*()` is `HandRank::from(` the corresponding value entry point `)` of the same hand (so whatever holds of
+    the value — the validity gate in particular — holds of the reported rank)."""
+    rep, pdb = ctx.rep, ctx.pdb
+    HRANK = "hand_rank::HandRank"
+    im = pdb.trait_impl("core::convert::From", HRANK, ["u16"])
+    kf = im["items"]["from"]
+    v = atom("v", "u16")
+    frm = ctx.summ(kf, [("v", v)]).ret
+    for path, n in sizes:
+        for meth, inner in pairs:
+            key, sty = ctx.method(path, meth, HR)
+            kin, _ = ctx.method(path, inner, HR)
+            h = ctx.hand(path, n)
+            s_ = ctx.summ(key, [("r", h)], sty, opaque={kin})
+            x = s_.ret[2][0] if s_.ret[0] == "agg" and s_.ret[2] else None
+            ok = x is not None and x[0] == "call" and x[1] == "fn:" + kin and x[2][0] is h
+            if ok:
+                exp = substitute(frm, lambda nd: x if nd is v else None)
+                ok = exp is s_.ret
+            rep.ob(rule, "%s::%s" % (short(path), meth), ok, "%s() must be HandRank::from(%s()) of the same hand" % (meth, inner), pdb.where(key))
+
+
 def entry_totality(ctx, rule, sizes, fac):
     """Panic sites of the ranking entry points (wrappers around hand_rank_value_and_hand) on hands of real cards."""
     from .base import decide_site
@@ -2362,6 +2385,8 @@ def check_C04(ctx):
     rep.floor("V.containers", cnt, 6)
     # the gate, for the three ranked sizes and the free function
     premise_entry(ctx, "E", sizes=((FIVE, 5), (SIX, 6), (SEVEN, 7)), gate_total=True)
+    # ... and the validated *rank* is the conversion of the validated value (so it is Invalid exactly when that is 0)
+    ctx.guard("E.validated-rank", rank_wiring, ctx, "E.validated-rank", ((FIVE, 5), (SIX, 6), (SEVEN, 7)), (("hand_rank_validated", "hand_rank_value_validated"),))
     # never panics: the invalid edge returns the constant 0 (gate) and validity itself has no reachable panic site
     def nopanic():
         for path, n in ((FIVE, 5), (SIX, 6), (SEVEN, 7)):
